@@ -202,6 +202,19 @@ def symbol_store(ctx, prog):
     ctx.floor(R, len(cs), 2, "call sites of parse_block_hash_from_bytes")
 
 
+def _is_fetch(z):
+    """an expression that fetches the next item: `it.next()`, or `slice.first().copied()` (the first item of a fresh re-slice)"""
+    z = strip(z)
+    if z[0] != "call":
+        return False
+    if z[1].endswith("::next"):
+        return True
+    if z[1].split("::")[-1] in ("copied", "cloned") and z[2]:
+        y = strip(z[2][0])
+        return y[0] == "call" and y[1].split("::")[-1] == "first"
+    return False
+
+
 def _ran_dry_flag(f, sy, l):
     """is local `l` the loop result `did the loop stop at a character (true) / did the iterator run dry (false)`:
     a named bool assigned only the constants true and false, false exactly on the None arm of an iterator's next()"""
@@ -226,7 +239,7 @@ def _ran_dry_flag(f, sy, l):
             srcs = [src]
             if src[0] == "local":
                 srcs = [strip(sy.call(x, b2)) if k2 == "call" else strip(sy.rvalue(x)) for (b2, _i2, k2, x) in f.defs.get(src[1], [])]
-            if srcs and all(z[0] == "call" and z[1].endswith("::next") for z in srcs):
+            if srcs and all(_is_fetch(z) for z in srcs):
                 dry = True
         if not dry:
             return False
@@ -245,7 +258,7 @@ def strict_lookahead(ctx, prog):
     sites = []
     starts = []
     for i, t in f.calls():
-        if callee_of(t).endswith("::next"):
+        if callee_of(t).endswith("::next") or callee_of(t).split("::")[-1] == "first":
             src = sy.origin(strip(sy.operand(t["args"][0])))
             while src[0] == "call" and src[2] and src[1].split("::")[-1] in ("into_iter", "iter", "copied", "cloned"):
                 src = strip(src[2][0])
